@@ -287,7 +287,9 @@ class SolverRun:
             except BaseException as e:      # noqa: B902
                 exc = type(e).__name__
                 self.last_exc = _exc_info(e)
-        return self._after_call("dgi", {"raised": exc or "none", "k": int(k), "_exc": getattr(self, "last_exc", None) if exc else None})
+        guard = "outside of interval" in buf.getvalue() or bool(exc and "outside of interval" in (self.last_exc or {}).get("msg", ""))
+        return self._after_call("dgi", {"raised": exc or "none", "k": int(k), "_exc": getattr(self, "last_exc", None) if exc else None,
+                                        "guard": guard})
 
     def solve(self):
         self.emit({"ev": "call", "name": "solve", "k": 0})
@@ -300,7 +302,8 @@ class SolverRun:
                 exc = type(e).__name__
                 self.last_exc = _exc_info(e)
         out = buf.getvalue()
-        extra = {"_exc": getattr(self, "last_exc", None) if exc else None, "raised": exc or "none", "printed_exc": "Exception was thrown" in out,
+        extra = {"guard": "outside of interval" in out,
+                 "_exc": getattr(self, "last_exc", None) if exc else None, "raised": exc or "none", "printed_exc": "Exception was thrown" in out,
                  "ret_is_results": ret is self.solver.GetResults() if ret is not None else False}
         sol = self._after_call("solve", extra)
         # reported value = objective at the reported point (re-evaluated through the unwrapped objective)
